@@ -50,6 +50,8 @@ def t3_case(case):
     m = case['m']
     d = int(rng.integers(1, 5))
     x = rng.uniform(-1, 1, (d, m))
+    if case['k'] % 4 == 3:
+        x = rng.integers(-2, 3, (d, m))          # integer-typed data (lattice / count data): values must not be truncated
     x0 = x.copy()
     obs = []
     mf = ('vt.props.c15', 't3_case')
@@ -97,7 +99,18 @@ def t3_case(case):
 
     # ---- HOCUR -------------------------------------------------------------------------------------------------------------
     c = C('transform.hocur')
-    ok, h = c.guarded('post:value', lambda: tr.hocur(x, phi, m, repeats=int(rng.integers(1, 4)), multiplier=10, progress=False))
+    # HOCUR is a pivoting heuristic: it is exercised on generic floating-point data only (integer lattice data with
+    # structural zeros makes the max-volume search stop early - a limitation of cross approximation, not demanded here)
+    generic = np.issubdtype(x.dtype, np.floating)
+    # requested ranks as a list (>= true ranks); the caller's list must survive the call (it is reused for the next call)
+    req = [1] + [m + 1] * p + [1]
+    req0 = list(req)
+    ok = False
+    if generic:
+        xs_small = x[:, :max(1, m // 2)]
+        ok0, h0 = c.guarded('post:value[rank-list]', lambda: tr.hocur(xs_small, phi, req, repeats=1, multiplier=10, progress=False))
+        c.add('frame:rank-list-unchanged', req == req0, '%s -> %s' % (req0, req))
+        ok, h = c.guarded('post:value', lambda: tr.hocur(x, phi, req, repeats=int(rng.integers(1, 4)), multiplier=10, progress=False))
     if ok:
         c.wf(h)
         if spec.wf(h):
